@@ -12,6 +12,7 @@ import (
 	"time"
 
 	"verif/atlasfake"
+	"verif/ev"
 	"verif/gen"
 	"verif/sut"
 )
@@ -40,6 +41,12 @@ var c16HostSets = [][]string{
 	{"localhost"},
 	{"10.1.2.3:27017", "10.1.2.4"},
 	{"b.example.net:27017", "a.example.net:27017", "d.example.net:27017", "c.example.net:27017"},
+	// two members on one machine (the same host name on two ports): two entries, two downloads, two outputs
+	{"dup.example.net:27017", "dup.example.net:27018", "other.example.net:27017"},
+	{"same.example.net:27017", "same.example.net:27018"},
+	// host names outside [A-Za-z0-9.-] and IPv6 literals
+	{"node_a.example.net:27017", "mongo_1:27018", "node-b.example.net"},
+	{"[2001:db8::1]:27017", "[2001:db8::2]:27018"},
 }
 
 var reWindow = regexp.MustCompile(`^endDate=(-?\d+)&startDate=(-?\d+)$`)
@@ -53,7 +60,7 @@ func C16() int {
 	g.LongMax = 100
 	g.MaxDepth = 2
 	var cfgs []c16Cfg
-	windows := [][2]int{{0, 0}, {1744712000, 1748600000}, {1700000000, 1700000060}, {1, 2}, {1748000000, 1748003600}}
+	windows := [][2]int{{0, 0}, {1744712000, 1748600000}, {1700000000, 1700000060}, {1, 2}, {1748000000, 1748003600}, {-3600, 3600}}
 	flagSets := [][]string{nil, {"-n", "-b", "-w"}, {"-r", "[x]", "-i"}}
 	memb := []int{1, 3, 1, 2}
 	for i, hs := range c16HostSets {
@@ -90,6 +97,11 @@ func C16() int {
 		for hi, h := range cf.hosts {
 			raw, z := atlasPayload(gg, hi, cf.lines[hi], cf.members)
 			nm := stripPort(h)
+			for pi, prev := range names {
+				if prev == nm {
+					raw, z = raws[pi], gzs[pi] // the same host named twice serves the same log twice
+				}
+			}
 			names = append(names, nm)
 			gzs = append(gzs, z)
 			raws = append(raws, raw)
@@ -285,6 +297,7 @@ func C16() int {
 			c.Sample(map[string]any{"configuration": cf.name, "hosts": cf.hosts, "requests": logURLs(log), "connect_targets": srv.Connects(), "exit": r.Exit})
 		}
 	})
+	c16RefusedHost(s, c)
 	// default window computed in-process
 	recs, crashed, _, err := s.Agent([]sut.AgentCmd{{"op": "dates", "start": 0, "end": 0}, {"op": "dates", "start": 100, "end": 200}}, nil, 0)
 	if err == nil && crashed < 0 && len(recs) == 2 {
@@ -353,4 +366,79 @@ func tzifWithRecentSwitch(now int64, fallBack bool) []byte {
 	b.Write([]byte{0, 4})
 	b.WriteString("VDT\x00VST\x00")
 	return b.Bytes()
+}
+
+// c16RefusedHost: one member's download is refused (HTTP status) while the lookup and the other
+// members succeed. Whatever the run then does, "<out>.<i> receives precisely the redaction of
+// host i's log": a file <out>.<i> that exists holds (a prefix of) host i's redacted log and never
+// another member's, and a run that reports success has produced every member's file completely.
+func c16RefusedHost(s *sut.SUT, c *ev.Check) {
+	type cse struct{ n, k, status int }
+	var cases []cse
+	for n := 2; n <= 4; n++ {
+		for k := 0; k < n; k++ {
+			for _, st := range []int{404, 409, 500, 503} {
+				if (n+k+st)%2 == 0 || thorough(c) || k == 0 {
+					cases = append(cases, cse{n, k, st})
+				}
+			}
+		}
+	}
+	parallelDo(len(cases), func(ci int) {
+		cs := cases[ci]
+		cfg, _, raws, names := c17Build(c.Seed+16, ci*4, c17Case{cs.n, cs.k, fmt.Sprintf("status-%d", cs.status)})
+		srv, err := atlasfake.New(cfg)
+		if err != nil {
+			c.Inconclusive("fake endpoint: " + err.Error())
+			return
+		}
+		defer srv.Close()
+		dir := s.TempDir("c16r")
+		defer os.RemoveAll(dir)
+		outp := filepath.Join(dir, "out.log")
+		flags := [][]string{nil, {"-n", "-w"}}[ci%2]
+		env := append(atlasEnv(srv, dir), "ATLAS_PUBLIC_KEY="+atlasPub, "ATLAS_PRIVATE_KEY="+atlasPriv)
+		args := append([]string{"redact", "--atlasProjectId", cfg.Project, "--atlasClusterName", cfg.Cluster, "-o", outp}, flags...)
+		r := s.CLI(sut.Run{Args: args, Dir: dir, Env: env, Timeout: 3 * time.Minute})
+		if r.TimedOut {
+			c.Inconclusive("watchdog on an Atlas CLI run")
+			return
+		}
+		label := fmt.Sprintf("%d hosts, download of host %d answered with HTTP %d", cs.n, cs.k, cs.status)
+		c.Count("refused_host_runs", 1)
+		c.Eval("refused|" + label)
+		rp := map[string]any{"kind": "atlas", "configuration": label, "exit": r.Exit, "stderr": short(r.Stderr, 300), "requests": logURLs(srv.Log())}
+		if len(srv.Log()) == 0 {
+			c.Violation("no-request-recorded", label+": the CLI never reached the fake endpoint", rp)
+			return
+		}
+		complete := 0
+		for i := range names {
+			got, err := os.ReadFile(fmt.Sprintf("%s.%d", outp, i))
+			if err != nil || len(got) == 0 {
+				continue
+			}
+			want, okw := expectRedaction(s, flags, raws[i])
+			if !okw {
+				c.Inconclusive("reference redaction failed")
+				return
+			}
+			if !bytes.HasPrefix(want, got) {
+				which := "other content"
+				for j := range names {
+					if w2, _ := expectRedaction(s, flags, raws[j]); j != i && len(w2) > 0 && bytes.HasPrefix(w2, got) {
+						which = fmt.Sprintf("the redaction of host %d (%s)", j, names[j])
+					}
+				}
+				c.Violation("output-file-mismatch|refused-host", fmt.Sprintf("%s: %s.%d is not the redaction of host %d's log: it holds %s (exit %d)", label, filepath.Base(outp), i, i, which, r.Exit), rp)
+				return
+			}
+			if bytes.Equal(want, got) {
+				complete++
+			}
+		}
+		if r.Exit == 0 && complete != len(names) {
+			c.Violation("success-with-missing-host|refused-host", fmt.Sprintf("%s: the run reports success but only %d of %d per-host outputs are complete", label, complete, len(names)), rp)
+		}
+	})
 }
